@@ -40,6 +40,15 @@
                           afterwards, and the text parses back to the tree after the call, which is
                           deep_equal to the original (`C15_roundtrip_text`: with "serialised before" as
                           "to_string returned a text")
+  An INNER start node (last section; Lemmas/DedupInnerStart.lean):
+    C15_same_start_nodes  the i-th start node (startPaths) before and after: same value, same skeleton
+    C15_serialises_from_every_start   to_string(start) returned a text before => it returns one after, EVERY
+                          start node of a tree in the C01 domain (inside, above, beside the call node)
+    C15_serialises_from_start_same_path   ... a start node not strictly inside keeps its raw path (nodeOK only)
+    C15_roundtrip_inner (+ _text, _at)   deduplicate_namespaces(node), to_string(element p), parse: deep_equal
+                          to the standalone document of p BEFORE the call; p anywhere, by position
+    C15_roundtrip_inner_same_path, _call_node   p not strictly inside the call's subtree: same raw path
+    C15_reachable_dedup_inner_full   the same for the erased tree of any store reached by parses and API calls
 -/
 import XotModel.Lemmas.ScopeDedup
 import XotModel.Lemmas.DedupFuel
@@ -47,6 +56,7 @@ import XotModel.Lemmas.DedupUnique
 import XotModel.Lemmas.DedupSerialise
 import XotModel.Lemmas.DedupInside
 import XotModel.Lemmas.DedupRoundTrip
+import XotModel.Lemmas.DedupInnerStart
 import XotModel.Props.C01
 
 namespace XotModel.Props
@@ -675,5 +685,390 @@ example : ∃ r' s p,
   exact ⟨r', s, p, hidem, h3, k1, k2, k3, k5⟩
 
 end EndToEndFull
+
+/-! ## An INNER start node: `deduplicate_namespaces(node)` then `to_string(element p)` then `parse`
+
+`to_string(p)` for an element `p` that has ancestors writes the declarations in scope at `p` on its start tag
+and parses back to the STANDALONE document of `p` (`standalone`, Model/InnerStartSpec.lean; `C01_roundtrip_inner`).
+The call may delete namespace nodes before `p` or before an ancestor of `p`, so the raw path of `p` may differ
+before (`q`) and after (`q'`): as in `C15_serialises_inside` the node is named by its position `i` in `startPaths`
+(raw document order of the nodes that are not namespace nodes; `C15_frame`: the same nodes before and after).
+WHERE `p` is relative to `node`: ANYWHERE — the root, an ancestor of `node`, `node` itself, a node strictly
+inside its subtree, a node beside it; for the positions that are not strictly inside, `q' = q`
+(`C15_roundtrip_inner_same_path`). -/
+
+section InnerStart
+
+/-- The `i`-th start nodes before and after the call are the same node: same value, same skeleton (the subtrees
+    differ in namespace nodes only) — every tree, every call node. -/
+theorem C15_same_start_nodes (env : Env) (t t' : Tree) (path : Path)
+    (hd : deduplicateNamespaces env t path = some t') (i : Nat) (q q' : Path)
+    (hq : (startPaths t)[i]? = some q) (hq' : (startPaths t')[i]? = some q') :
+    ∃ s s', t.at? q = some s ∧ t'.at? q' = some s' ∧ s'.value = s.value ∧ stripNs s' = stripNs s := by
+  obtain ⟨s, s', h1, h2, h3⟩ := startPaths_match (C15_frame env t t' path hd).1 i q q' hq hq'
+  refine ⟨s, s', h1, h2, ?_, h3⟩
+  rw [← dis_stripNs_value s', h3, dis_stripNs_value]
+
+/-- ⟦C15_serialises_from_every_start⟧ **After the call `to_string` succeeds from every start node from which it
+    succeeded before** — with "serialises" as the property words it (`to_string` returned a text): `t` in the
+    C01 domain (document or fragment), `node` ANY node, the start node ANY node that is not a namespace node
+    (element or not; inside the call's subtree, above it, beside it), matched by position in `startPaths`.  No
+    `MissingPrefix` appears anywhere.  (`C15_serialises_inside` is this statement with `namesWritable` and
+    already ranges over the start nodes of the WHOLE tree, not only those inside the call's subtree; its two
+    hypotheses are about the call's subtree and hold in the C01 domain.) -/
+theorem C15_serialises_from_every_start (env : Env) (t t' : Tree) (path : Path)
+    (hr : RepresentableFragment env t = true) (hd : deduplicateNamespaces env t path = some t') :
+    (startPaths t').length = (startPaths t).length ∧
+    ∀ (i : Nat) (q q' : Path), (startPaths t)[i]? = some q → (startPaths t')[i]? = some q' →
+      ∀ s0, toXmlString env t q = .ok s0 → ∃ s, toXmlString env t' q' = .ok s := by
+  obtain ⟨hlen, hall⟩ := C15_serialises_everywhere env t t' path hr hd
+  refine ⟨hlen, fun i q q' hq hq' s0 hs0 => ?_⟩
+  obtain ⟨sub, sub', h1, h2, _, _⟩ := C15_same_start_nodes env t t' path hd i q q' hq hq'
+  obtain ⟨henv, _, hn, _⟩ := (representableFragment_iff env t).mp hr
+  have hr' := C15_representable_fragment env t t' path hr hd
+  obtain ⟨_, _, hn', _⟩ := (representableFragment_iff env t').mp hr'
+  exact (C01_inner_serialises env t' q' sub' henv hn' h2).mpr
+    (hall i q q' hq hq' ((C01_inner_serialises env t q sub henv hn h1).mp ⟨s0, hs0⟩))
+
+/-- … for a start node that is not strictly inside the call's subtree (root, ancestors of `node`, `node`
+    itself, everything beside it) the path is the same before and after; hypotheses on the tables and the
+    nodes only (`nodeOK` everywhere: no document root, no distinct `xml:id`s needed). -/
+theorem C15_serialises_from_start_same_path (env : Env) (t t' : Tree) (path : Path) (henv : envOK env = true)
+    (hok : t.allNodes (nodeOK env) = true) (hd : deduplicateNamespaces env t path = some t') (q : Path)
+    (hq : ∀ r, q = path ++ r → r = []) (sub : Tree) (hat : t.at? q = some sub)
+    (s0 : Str) (hs0 : toXmlString env t q = .ok s0) :
+    ∃ sub' s, t'.at? q = some sub' ∧ sub'.value = sub.value ∧ stripNs sub' = stripNs sub ∧
+      toXmlString env t' q = .ok s := by
+  obtain ⟨csub, hcs⟩ := deduplicateNamespaces_isSome env t t' path hd
+  have hok' := (keeps_deduplicateNamespaces t t' path hok hd).ok
+  obtain ⟨sub', hat', hsh⟩ := deduplicateNamespaces_at?_outside env t t' path hd q hq sub hat
+  obtain ⟨s, hs⟩ := (C01_inner_serialises env t' q sub' henv hok' hat').mpr
+    (C15_serialises env t t' path csub hcs ((uniqueDeclsBelow_of_allNodes t hok).at hcs) hd q hq
+      ((C01_inner_serialises env t q sub henv hok hat).mp ⟨s0, hs0⟩))
+  exact ⟨sub', s, hat', hsh.value, hsh.strip, hs⟩
+
+/-- The general form, whatever the paths: `q` an element before the call, `q'` a path after the call at which
+    an element with the same name and the same skeleton sits and from which every name is writable. -/
+theorem C15_roundtrip_inner_at (env : Env) (t t' : Tree) (path : Path) (hr : RepresentableFragment env t = true)
+    (hd : deduplicateNamespaces env t path = some t') (q q' : Path)
+    (name : Nat) (ks ks' : List Tree) (hat : t.at? q = some (.node (.element name) ks))
+    (hat' : t'.at? q' = some (.node (.element name) ks'))
+    (hst : stripNs (.node (.element name) ks') = stripNs (.node (.element name) ks))
+    (hw' : namesWritable env t' q' = some true) :
+    ∃ s p X X', toXmlString env t' q' = .ok s ∧
+      standalone t q = some (.node .document [.node (.element name) (nsLeaves X ++ ks)]) ∧
+      standalone t' q' = some (.node .document [.node (.element name) (nsLeaves X' ++ ks')]) ∧
+      parseString .document env s = .ok p ∧
+      p.tree = .node .document [.node (.element name) (nsLeaves X' ++ ks')] ∧ p.env = env ∧
+      deepEqual p.tree (.node .document [.node (.element name) (nsLeaves X ++ ks)]) = true ∧
+      deepEqual (.node (.element name) (nsLeaves X' ++ ks')) (.node (.element name) ks) = true := by
+  have hr' := C15_representable_fragment env t t' path hr hd
+  obtain ⟨henv, _, hn, hid⟩ := (representableFragment_iff env t).mp hr
+  obtain ⟨s, p, X', k1, k2, k3, k4, k5, k6, _⟩ := C01_roundtrip_inner_writable env t' hr' q' name ks' hat' hw'
+  obtain ⟨X, j1, j2⟩ := C01_inner_standalone_representable env t q name ks henv hn hat
+    (hid.sublist (xmlIdValues_at?_sublist q t _ hat))
+  have ok : ∀ x, Representable env x = true → x.allNodes (nodeOK env) = true := by
+    intro x hx
+    simp only [Representable, Bool.and_eq_true] at hx
+    exact ((representableFragment_iff env x).mp hx.1).2.2.1
+  refine ⟨s, p, X, X', k1, j1, k2, k4, k5, k6, ?_, ?_⟩
+  · rw [k5]
+    apply deepEqual_of_stripNs (ok _ k3) (ok _ j2)
+    rw [stripNs_standalone_doc, stripNs_standalone_doc, hst]
+  · apply deepEqual_of_stripNs (allNodes_kid (ok _ k3) (by simp)) (ist_allNodes_at? q t _ hn hat)
+    have e1 := stripNs_standalone_doc name X' ks'
+    have e2 := stripNs_standalone_doc name [] ks'
+    simp only [nsLeaves, List.map_nil, List.nil_append] at e2
+    rw [← hst]
+    have := e1.trans e2.symm
+    simp only [stripNs, stripNs.stripNsList] at this
+    simpa [stripNs, Value.category, Tree.value] using this
+
+/-- ⟦C15_roundtrip_inner⟧ **`deduplicate_namespaces(node)`, then `to_string(element p)`, then `parse`: deep-equal
+    to the standalone document of `p` BEFORE the call.**  `t` in the C01 domain (document or fragment), `node`
+    ANY node (`path`), `p` ANY element of the tree — at, below, above or beside `node` —: the `i`-th start node,
+    at `q` before the call and at `q'` after it.  If `to_string(p)` found every prefix before the call
+    (`namesWritable`), then after the call the `i`-th start node is the same element (same name, same skeleton),
+    `to_string` of it succeeds, and parsing the text — same `Xot`, nothing interned — gives exactly the
+    standalone document of `p` in the tree AFTER the call, which is `deep_equal` to the standalone document of
+    `p` in the tree BEFORE the call (and its document element to the element `p` before the call). -/
+theorem C15_roundtrip_inner (env : Env) (t t' : Tree) (path : Path) (hr : RepresentableFragment env t = true)
+    (hd : deduplicateNamespaces env t path = some t') (i : Nat) (q q' : Path)
+    (hq : (startPaths t)[i]? = some q) (hq' : (startPaths t')[i]? = some q')
+    (name : Nat) (ks : List Tree) (hat : t.at? q = some (.node (.element name) ks))
+    (hw : namesWritable env t q = some true) :
+    ∃ ks' s p X X', t'.at? q' = some (.node (.element name) ks') ∧
+      stripNs (.node (.element name) ks') = stripNs (.node (.element name) ks) ∧
+      toXmlString env t' q' = .ok s ∧
+      standalone t q = some (.node .document [.node (.element name) (nsLeaves X ++ ks)]) ∧
+      standalone t' q' = some (.node .document [.node (.element name) (nsLeaves X' ++ ks')]) ∧
+      parseString .document env s = .ok p ∧
+      p.tree = .node .document [.node (.element name) (nsLeaves X' ++ ks')] ∧ p.env = env ∧
+      deepEqual p.tree (.node .document [.node (.element name) (nsLeaves X ++ ks)]) = true ∧
+      deepEqual (.node (.element name) (nsLeaves X' ++ ks')) (.node (.element name) ks) = true := by
+  obtain ⟨_, hall⟩ := C15_serialises_everywhere env t t' path hr hd
+  have hw' := hall i q q' hq hq' hw
+  obtain ⟨sub, sub', h1, h2, hv, hst⟩ := C15_same_start_nodes env t t' path hd i q q' hq hq'
+  rw [hat, Option.some.injEq] at h1
+  subst h1
+  obtain ⟨v', ks'⟩ := sub'
+  simp only [Tree.value] at hv
+  subst hv
+  obtain ⟨s, p, X, X', k⟩ := C15_roundtrip_inner_at env t t' path hr hd q q' name ks ks' hat h2 hst hw'
+  exact ⟨ks', s, p, X, X', h2, hst, k⟩
+
+/-- ⟦C15_roundtrip_inner_same_path⟧ The element `p` NOT strictly inside the subtree of `node` — the document
+    element when `node` is below it, any ancestor of `node`, `node` itself (`q = path`), an element beside it —:
+    it keeps its raw path `q`, no enumeration needed. -/
+theorem C15_roundtrip_inner_same_path (env : Env) (t t' : Tree) (path : Path)
+    (hr : RepresentableFragment env t = true) (hd : deduplicateNamespaces env t path = some t') (q : Path)
+    (hq : ∀ r, q = path ++ r → r = [])
+    (name : Nat) (ks : List Tree) (hat : t.at? q = some (.node (.element name) ks))
+    (hw : namesWritable env t q = some true) :
+    ∃ ks' s p X X', t'.at? q = some (.node (.element name) ks') ∧
+      stripNs (.node (.element name) ks') = stripNs (.node (.element name) ks) ∧
+      toXmlString env t' q = .ok s ∧
+      standalone t q = some (.node .document [.node (.element name) (nsLeaves X ++ ks)]) ∧
+      standalone t' q = some (.node .document [.node (.element name) (nsLeaves X' ++ ks')]) ∧
+      parseString .document env s = .ok p ∧
+      p.tree = .node .document [.node (.element name) (nsLeaves X' ++ ks')] ∧ p.env = env ∧
+      deepEqual p.tree (.node .document [.node (.element name) (nsLeaves X ++ ks)]) = true ∧
+      deepEqual (.node (.element name) (nsLeaves X' ++ ks')) (.node (.element name) ks) = true := by
+  obtain ⟨csub, hcs⟩ := deduplicateNamespaces_isSome env t t' path hd
+  have hw' := C15_serialises env t t' path csub hcs ((uniqueDeclsBelow_of_representableFragment hr).at hcs) hd q hq hw
+  obtain ⟨sub', h2, hsh⟩ := deduplicateNamespaces_at?_outside env t t' path hd q hq _ hat
+  obtain ⟨v', ks'⟩ := sub'
+  have hv := hsh.value
+  simp only [Tree.value] at hv
+  subst hv
+  obtain ⟨s, p, X, X', k⟩ := C15_roundtrip_inner_at env t t' path hr hd q q name ks ks' hat h2 hsh.strip hw'
+  exact ⟨ks', s, p, X, X', h2, hsh.strip, k⟩
+
+/-- `to_string(node)` after the call on the element `node` itself. -/
+theorem C15_roundtrip_inner_call_node (env : Env) (t t' : Tree) (path : Path)
+    (hr : RepresentableFragment env t = true) (hd : deduplicateNamespaces env t path = some t')
+    (name : Nat) (ks : List Tree) (hat : t.at? path = some (.node (.element name) ks))
+    (hw : namesWritable env t path = some true) :
+    ∃ ks' s p X X', t'.at? path = some (.node (.element name) ks') ∧
+      stripNs (.node (.element name) ks') = stripNs (.node (.element name) ks) ∧
+      toXmlString env t' path = .ok s ∧
+      standalone t path = some (.node .document [.node (.element name) (nsLeaves X ++ ks)]) ∧
+      standalone t' path = some (.node .document [.node (.element name) (nsLeaves X' ++ ks')]) ∧
+      parseString .document env s = .ok p ∧
+      p.tree = .node .document [.node (.element name) (nsLeaves X' ++ ks')] ∧ p.env = env ∧
+      deepEqual p.tree (.node .document [.node (.element name) (nsLeaves X ++ ks)]) = true ∧
+      deepEqual (.node (.element name) (nsLeaves X' ++ ks')) (.node (.element name) ks) = true :=
+  C15_roundtrip_inner_same_path env t t' path hr hd path (fun _ h => List.self_eq_append_right.1 h) name ks hat hw
+
+/-- With "serialised before" as the property words it (`to_string(p)` returned a text). -/
+theorem C15_roundtrip_inner_text (env : Env) (t t' : Tree) (path : Path) (hr : RepresentableFragment env t = true)
+    (hd : deduplicateNamespaces env t path = some t') (i : Nat) (q q' : Path)
+    (hq : (startPaths t)[i]? = some q) (hq' : (startPaths t')[i]? = some q')
+    (name : Nat) (ks : List Tree) (hat : t.at? q = some (.node (.element name) ks))
+    (s0 : Str) (hs0 : toXmlString env t q = .ok s0) :
+    ∃ ks' s p X X', t'.at? q' = some (.node (.element name) ks') ∧
+      stripNs (.node (.element name) ks') = stripNs (.node (.element name) ks) ∧
+      toXmlString env t' q' = .ok s ∧
+      standalone t q = some (.node .document [.node (.element name) (nsLeaves X ++ ks)]) ∧
+      standalone t' q' = some (.node .document [.node (.element name) (nsLeaves X' ++ ks')]) ∧
+      parseString .document env s = .ok p ∧
+      p.tree = .node .document [.node (.element name) (nsLeaves X' ++ ks')] ∧ p.env = env ∧
+      deepEqual p.tree (.node .document [.node (.element name) (nsLeaves X ++ ks)]) = true ∧
+      deepEqual (.node (.element name) (nsLeaves X' ++ ks')) (.node (.element name) ks) = true := by
+  obtain ⟨henv, _, hn, _⟩ := (representableFragment_iff env t).mp hr
+  exact C15_roundtrip_inner env t t' path hr hd i q q' hq hq' name ks hat
+    ((C01_inner_serialises env t q _ henv hn hat).mp ⟨s0, hs0⟩)
+
+/-! Non-vacuity, closed (tables `c15RtEnv`): `<r xmlns="urn:a" xmlns:p="urn:b"><q:c xmlns:q="urn:b"><q:c/></q:c></r>`;
+    the call on the document removes the redundant `xmlns:q`.  The INNERMOST element is the start node: position
+    3 of `startPaths`, raw path `[0, 2, 1]` before the call and `[0, 2, 0]` after it (the namespace node before it
+    is gone).  Before the call `to_string` of it writes three inherited declarations, after the call two; both
+    texts stand for deep-equal standalone documents. -/
+
+def c15InnerDoc : Tree :=
+  .node .document [.node (.element 2) [.node (.namespace 0 2) [], .node (.namespace 2 3) [],
+    .node (.element 3) [.node (.namespace 3 3) [], .node (.element 3) []]]]
+
+example : RepresentableFragment c15RtEnv c15InnerDoc = true ∧
+    startPaths c15InnerDoc = [[], [0], [0, 2], [0, 2, 1]] ∧
+    (deduplicateNamespaces c15RtEnv c15InnerDoc []).map startPaths = some [[], [0], [0, 2], [0, 2, 0]] ∧
+    namesWritable c15RtEnv c15InnerDoc [0, 2, 1] = some true ∧
+    toXmlString c15RtEnv c15InnerDoc [0, 2, 1] =
+      .ok "<p:c xmlns:q=\"urn:b\" xmlns=\"urn:a\" xmlns:p=\"urn:b\"/>".toList ∧
+    (deduplicateNamespaces c15RtEnv c15InnerDoc []).map (fun t' => toXmlString c15RtEnv t' [0, 2, 0]) =
+      some (.ok "<p:c xmlns=\"urn:a\" xmlns:p=\"urn:b\"/>".toList) ∧
+    standalone c15InnerDoc [0, 2, 1] = some (.node .document [.node (.element 3)
+      [.node (.namespace 3 3) [], .node (.namespace 0 2) [], .node (.namespace 2 3) []]]) ∧
+    (deduplicateNamespaces c15RtEnv c15InnerDoc []).bind (fun t' => standalone t' [0, 2, 0]) =
+      some (.node .document [.node (.element 3) [.node (.namespace 0 2) [], .node (.namespace 2 3) []]]) := by
+  decide
+
+/-- The call node itself as start node (`q:c`, path `[0, 2]`, call on it: nothing is known inside, nothing goes)
+    and as a start node above the removal (call on the document: `xmlns:q` goes, `to_string(q:c)` switches to
+    `p`). -/
+example : namesWritable c15RtEnv c15InnerDoc [0, 2] = some true ∧
+    toXmlString c15RtEnv c15InnerDoc [0, 2] =
+      .ok "<q:c xmlns=\"urn:a\" xmlns:p=\"urn:b\" xmlns:q=\"urn:b\"><q:c/></q:c>".toList ∧
+    (deduplicateNamespaces c15RtEnv c15InnerDoc [0, 2]).map (fun t' => toXmlString c15RtEnv t' [0, 2]) =
+      some (.ok "<q:c xmlns=\"urn:a\" xmlns:p=\"urn:b\" xmlns:q=\"urn:b\"><q:c/></q:c>".toList) ∧
+    (deduplicateNamespaces c15RtEnv c15InnerDoc []).map (fun t' => toXmlString c15RtEnv t' [0, 2]) =
+      some (.ok "<p:c xmlns=\"urn:a\" xmlns:p=\"urn:b\"><p:c/></p:c>".toList) := by
+  decide
+
+/-- `C15_roundtrip_inner` applied, closed: the text of the innermost element after the call parses to a
+    document that is `deep_equal` to its standalone document before the call. -/
+example : ∃ t' s p, deduplicateNamespaces c15RtEnv c15InnerDoc [] = some t' ∧
+    toXmlString c15RtEnv t' [0, 2, 0] = .ok s ∧ parseString .document c15RtEnv s = .ok p ∧
+    p.env = c15RtEnv ∧
+    deepEqual p.tree (.node .document [.node (.element 3)
+      [.node (.namespace 3 3) [], .node (.namespace 0 2) [], .node (.namespace 2 3) []]]) = true := by
+  cases hd : deduplicateNamespaces c15RtEnv c15InnerDoc [] with
+  | none =>
+    have : (deduplicateNamespaces c15RtEnv c15InnerDoc []).isSome = true := by decide
+    rw [hd] at this; cases this
+  | some t' =>
+    have hp : (deduplicateNamespaces c15RtEnv c15InnerDoc []).map startPaths = some [[], [0], [0, 2], [0, 2, 0]] := by
+      decide
+    rw [hd, Option.map_some, Option.some.injEq] at hp
+    obtain ⟨ks', s, p, X, X', _, _, k3, k4, _, k6, _, k8, k9, _⟩ :=
+      C15_roundtrip_inner c15RtEnv c15InnerDoc t' [] (by decide) hd 3 [0, 2, 1] [0, 2, 0] (by decide)
+        (by rw [hp]; rfl) 3 [] (by decide) (by decide)
+    have hX : standalone c15InnerDoc [0, 2, 1] = some (.node .document [.node (.element 3)
+      [.node (.namespace 3 3) [], .node (.namespace 0 2) [], .node (.namespace 2 3) []]]) := by decide
+    rw [hX, Option.some.injEq] at k4
+    rw [← k4] at k9
+    exact ⟨t', s, p, rfl, k3, k6, k8, k9⟩
+
+/-- `C15_roundtrip_inner_call_node` applied, closed: call on `q:c` (path `[0, 2]`), start node `q:c`. -/
+example : ∃ t' ks' s p, deduplicateNamespaces c15RtEnv c15InnerDoc [0, 2] = some t' ∧
+    t'.at? [0, 2] = some (.node (.element 3) ks') ∧
+    toXmlString c15RtEnv t' [0, 2] = .ok s ∧ parseString .document c15RtEnv s = .ok p ∧
+    deepEqual p.tree.kids.head! (.node (.element 3) [.node (.namespace 3 3) [], .node (.element 3) []]) = true := by
+  cases hd : deduplicateNamespaces c15RtEnv c15InnerDoc [0, 2] with
+  | none =>
+    have : (deduplicateNamespaces c15RtEnv c15InnerDoc [0, 2]).isSome = true := by decide
+    rw [hd] at this; cases this
+  | some t' =>
+    obtain ⟨ks', s, p, X, X', k1, _, k3, _, _, k6, k7, _, _, k10⟩ :=
+      C15_roundtrip_inner_call_node c15RtEnv c15InnerDoc t' [0, 2] (by decide) hd 3 _ rfl (by decide)
+    refine ⟨t', ks', s, p, rfl, k1, k3, k6, ?_⟩
+    rw [k7]
+    exact k10
+
+end InnerStart
+
+/-! ## END TO END for an inner start node: parse ∘ API edits ∘ `deduplicate_namespaces(node)` ∘ `to_string(element)` ∘ parse
+
+`C15_roundtrip_inner` on the erased tree of a store reached by parses and API calls: `C15_forest_dedup_refines_tree`
+∘ `C15_roundtrip_inner` ∘ `C01_reachable_representable_full` ∘ `C04_reach_full`.  (Fragments allowed: the C01
+domain needed is `RepresentableFragment`, no condition on the number of top-level elements.) -/
+
+section InnerStartFull
+
+/-- ⟦C15_reachable_dedup_inner_full⟧ `S` the store after any FULL history `cs` from `Xot::new()` with the tables
+    `env` (`parse` / `parse_fragment` of ARBITRARY texts and well-kinded extended API calls in any order;
+    consolidation never switched off), `r` any parentless tree of it with a document root and VALUES in the XML
+    domain for the tables of the store (`envOK`, `valueOK` everywhere, distinct `xml:id`s), `node` ANY node of `r`,
+    `S'` the store after the history extended by the step `deduplicate_namespaces(node)`.  The step answers `Ok`,
+    tables and xml:id index untouched, invariant; the tree `r'` that `r` has become is the tree model's answer on
+    the erased tree and stays in the C01 domain; and for EVERY element `p` of `r` (the `i`-th start node of the
+    erased tree: at, below, above or beside `node`) from which `to_string` found every prefix before the step:
+    after the step the `i`-th start node is the same element, `to_string` of it succeeds and `parse` of the text
+    — tables unchanged — gives its standalone document, `deep_equal` to the standalone document of `p` BEFORE the
+    step. -/
+theorem C15_reachable_dedup_inner_full (env : Env) (cs : List PCall) (hw : ∀ c ∈ cs, c.wellKinded)
+    (S : PStore) (hS : S = (PStore.init env).run cs) (hoff : S.forest.everOff = false)
+    (r : HTree) (hr : r ∈ S.forest.roots) (hdoc : r.value.isDocument = true) (henv : envOK S.env = true)
+    (hval : r.erase.allNodes (fun v _ => valueOK S.env v) = true)
+    (hid : (xmlIdValues S.env r.erase).Nodup)
+    (node : Nat) (hn : node ∈ r.handles)
+    (S' : PStore) (hS' : S' = (PStore.init env).run (cs ++ [.api (.deduplicateNamespaces node)])) :
+    ((PCall.api (.deduplicateNamespaces node)).run S).2 = .api .ok ∧ S'.env = S.env ∧ S'.index = S.index ∧
+    S'.forest.Inv ∧
+    ∃ (r' : HTree) (path : Path), r.pathOf node = some path ∧ r'.pathOf node = some path ∧
+      S'.forest.roots = S.forest.roots.map (fun y => if (y.pathOf node).isSome then r' else y) ∧
+      S'.forest.rootOf? node = some r' ∧
+      deduplicateNamespaces S.env r.erase path = some r'.erase ∧
+      RepresentableFragment S.env r'.erase = true ∧
+      (startPaths r'.erase).length = (startPaths r.erase).length ∧
+      ∀ (i : Nat) (q q' : Path) (name : Nat) (ks : List Tree),
+        (startPaths r.erase)[i]? = some q → (startPaths r'.erase)[i]? = some q' →
+        r.erase.at? q = some (.node (.element name) ks) → namesWritable S.env r.erase q = some true →
+        ∃ ks' s p X X', r'.erase.at? q' = some (.node (.element name) ks') ∧
+          stripNs (.node (.element name) ks') = stripNs (.node (.element name) ks) ∧
+          toXmlString S.env r'.erase q' = .ok s ∧
+          standalone r.erase q = some (.node .document [.node (.element name) (nsLeaves X ++ ks)]) ∧
+          standalone r'.erase q' = some (.node .document [.node (.element name) (nsLeaves X' ++ ks')]) ∧
+          parseString .document S.env s = .ok p ∧
+          p.tree = .node .document [.node (.element name) (nsLeaves X' ++ ks')] ∧ p.env = S.env ∧
+          deepEqual p.tree (.node .document [.node (.element name) (nsLeaves X ++ ks)]) = true ∧
+          deepEqual (.node (.element name) (nsLeaves X' ++ ks')) (.node (.element name) ks) = true := by
+  have hi' : S'.forest.Inv := by
+    rw [hS']
+    refine (C04_reach_full env _ (fun c hc => ?_)).1
+    rcases List.mem_append.mp hc with hc | hc
+    · exact hw c hc
+    · rw [List.mem_singleton.mp hc]; trivial
+  have hstep : S' = ⟨(S.forest.deduplicateNamespaces S.env node).1, S.env, S.index⟩ := by
+    rw [hS', hS]; simp [PStore.run, List.foldl_append, PStore.step, PCall.run, Forest.XCall.run, PStore.store]
+  subst hS
+  have hi := (C04_reach_full env cs hw).1
+  have hfrag : RepresentableFragment ((PStore.init env).run cs).env r.erase = true := by
+    rw [(C01_reachable_representable_full env cs hw hoff r hr _).1]
+    simp [henv, hdoc, hval, hid]
+  have h1 := Forest.fpxr_rootOf_of_mem hi.nodup hr hn
+  obtain ⟨path, h2⟩ := Forest.fpxd_rootOf_path h1
+  obtain ⟨r', a1, a2, a3, a4, a5, _, _, _, _⟩ := C15_forest_dedup_refines_tree _ hi
+    ((PStore.init env).run cs).env node r h1 path h2
+  have hfrag' := C15_representable_fragment _ r.erase r'.erase path hfrag a2
+  have hlen := (C15_serialises_everywhere _ r.erase r'.erase path hfrag a2).1
+  subst hstep
+  refine ⟨?_, rfl, rfl, hi', r', path, h2, a4, a5, a3, a2, hfrag', hlen, ?_⟩
+  · simp only [PCall.run, Forest.XCall.run, PStore.store]
+    rw [a1]
+  · intro i q q' name ks hq hq' hat hwq
+    exact C15_roundtrip_inner _ r.erase r'.erase path hfrag a2 i q q' hq hq' name ks hat hwq
+
+/-! Non-vacuity, closed: the history `c15FullCalls` of section EndToEndFull (parse `<r xmlns:p="urn:a"><p:a>t</p:a></r>`,
+    then `namespaces_mut(p:a).insert(p, urn:a)`: redundant declaration, handle 5).  Start node: the inner element
+    `p:a` (handle 3), position 2 of `startPaths`, path `[0, 1]` before and after; `to_string(p:a)` is
+    `<p:a xmlns:p="urn:a">t</p:a>` before and after the step `deduplicate_namespaces(doc)` (before: its own
+    declaration; after: the inherited one). -/
+
+example :
+    let S := (PStore.init Env.fresh).run c15FullCalls
+    let S' := (PStore.init Env.fresh).run (c15FullCalls ++ [.api (.deduplicateNamespaces 0)])
+    startPaths c15FullRoot.erase = [[], [0], [0, 1], [0, 1, 1]] ∧
+    S'.forest.roots.map (fun r' => startPaths r'.erase) = [[[], [0], [0, 1], [0, 1, 0]]] ∧
+    c15FullRoot.erase.at? [0, 1] = some (.node (.element 3) [.node (.namespace 2 2) [], .node (.text ['t']) []]) ∧
+    namesWritable S.env c15FullRoot.erase [0, 1] = some true ∧
+    toXmlString S.env c15FullRoot.erase [0, 1] = .ok "<p:a xmlns:p=\"urn:a\">t</p:a>".toList ∧
+    S'.forest.roots.map (fun r' => toXmlString S'.env r'.erase [0, 1]) =
+      [.ok "<p:a xmlns:p=\"urn:a\">t</p:a>".toList] := by decide +kernel
+
+example : ∃ r' ks' s p,
+    let S := (PStore.init Env.fresh).run c15FullCalls
+    let S' := (PStore.init Env.fresh).run (c15FullCalls ++ [.api (.deduplicateNamespaces 0)])
+    S'.forest.rootOf? 0 = some r' ∧ r'.erase.at? [0, 1] = some (.node (.element 3) ks') ∧
+      toXmlString S.env r'.erase [0, 1] = .ok s ∧ parseString .document S.env s = .ok p ∧ p.env = S.env ∧
+      deepEqual p.tree.kids.head! (.node (.element 3) [.node (.namespace 2 2) [], .node (.text ['t']) []]) = true := by
+  obtain ⟨_, _, _, _, r', path, _, _, b3, b4, _, _, _, hall⟩ :=
+    C15_reachable_dedup_inner_full Env.fresh c15FullCalls (by decide) _ rfl (by decide +kernel)
+      c15FullRoot (by decide +kernel) rfl (by decide +kernel) (by decide +kernel) (by decide +kernel)
+      0 (by decide) _ rfl
+  have hroots : ((PStore.init Env.fresh).run (c15FullCalls ++ [.api (.deduplicateNamespaces 0)])).forest.roots.map
+      (fun r' => startPaths r'.erase) = [[[], [0], [0, 1], [0, 1, 0]]] := by decide +kernel
+  have hr0 : ((PStore.init Env.fresh).run c15FullCalls).forest.roots = [c15FullRoot] := by decide +kernel
+  rw [b3, hr0] at hroots
+  have hp0 : (c15FullRoot.pathOf 0).isSome = true := by decide
+  simp only [List.map_cons, List.map_nil, hp0, if_true, List.cons.injEq, and_true] at hroots
+  obtain ⟨ks', s, p, X, X', k1, _, k3, _, _, k6, k7, k8, _, k10⟩ :=
+    hall 2 [0, 1] [0, 1] 3 [.node (.namespace 2 2) [], .node (.text ['t']) []] (by decide) (by rw [hroots]; rfl)
+      (by decide) (by decide +kernel)
+  refine ⟨r', ks', s, p, b4, k1, k3, k6, k8, ?_⟩
+  rw [k7]
+  exact k10
+
+end InnerStartFull
 
 end XotModel.Props
